@@ -595,6 +595,10 @@ func nilnessAt(e ssa.Value, blk, to *ssa.BasicBlock) (isNil, known bool) {
 			if n == "fmt.Errorf" || n == "errors.New" {
 				return false, true
 			}
+		case *ssa.UnOp:
+			if isSentinelError(x) {
+				return false, true
+			}
 		case *ssa.TypeAssert:
 			// an item taken from a container/heap queue: the queues of this repository only ever hold non-nil items
 			// (every heap.Push is given a fresh allocation or an item that was popped: C06's rule R-HEAP.non-nil)
@@ -1117,6 +1121,10 @@ func isDefiniteErrorReturnFrom(r *ssa.Return, pred *ssa.BasicBlock) bool {
 			}
 		case *ssa.MakeInterface:
 			return true // a concrete error value boxed into the interface
+		case *ssa.UnOp:
+			if isSentinelError(x) {
+				return true
+			}
 		case *ssa.ChangeInterface:
 			v = x.X
 			continue
@@ -1484,4 +1492,69 @@ func guardsOfInter(b *ssa.BasicBlock) []guard {
 		fn = par
 	}
 	return out
+}
+
+// timeLess reads a call of (time.Time).Before / After as "early is before late": x.Before(y) and y.After(x) are one
+// comparison. ok is false for any other call.
+func timeLess(c *ssa.Call) (early, late ssa.Value, ok bool) {
+	if c == nil || len(c.Call.Args) != 2 {
+		return nil, nil, false
+	}
+	switch calleeName(&c.Call) {
+	case "(time.Time).Before":
+		return c.Call.Args[0], c.Call.Args[1], true
+	case "(time.Time).After":
+		return c.Call.Args[1], c.Call.Args[0], true
+	}
+	return nil, nil, false
+}
+
+// storedIntoField: v is (also) the value of a store into field T.f.
+func storedIntoField(v ssa.Value, tname, fname string) bool {
+	for _, ref := range refs(v) {
+		if st, ok := ref.(*ssa.Store); ok && st.Val == v {
+			if tn, fn, _, ok := fieldOf(st.Addr); ok && tn == tname && fn == fname {
+				return true
+			}
+		}
+	}
+	return false
+}
+
+// isSentinelError: a load of a package-level variable of the repository that is assigned exactly once, in the package
+// initialiser, with errors.New / fmt.Errorf (var errX = errors.New("...")): never nil.
+func isSentinelError(u *ssa.UnOp) bool {
+	if u.Op != token.MUL {
+		return false
+	}
+	g, ok := u.X.(*ssa.Global)
+	if !ok || g.Pkg == nil {
+		return false
+	}
+	n, good := 0, false
+	for _, m := range g.Pkg.Members {
+		fn, ok := m.(*ssa.Function)
+		if !ok {
+			continue
+		}
+		for _, f := range withClosures(fn) {
+			eachInstr(f, func(in ssa.Instruction) {
+				st, ok := in.(*ssa.Store)
+				if !ok || st.Addr != ssa.Value(g) {
+					return
+				}
+				n++
+				v := st.Val
+				if mi, ok := v.(*ssa.MakeInterface); ok {
+					v = mi.X
+				}
+				if c, ok := st.Val.(*ssa.Call); ok && f.Name() == "init" {
+					cn := calleeName(&c.Call)
+					good = cn == "errors.New" || cn == "fmt.Errorf"
+				}
+				_ = v
+			})
+		}
+	}
+	return n == 1 && good
 }
